@@ -17,8 +17,12 @@ A value is a tree: leaves `None`, `bool`, `int`, `float` (IEEE binary64 bit patt
 (two bit patterns), `str`, `bytes`; inner nodes are lists / tuples.  The answer is the tensor the
 call returns: a `_core.Tensor` over the numpy array (`Rep.array`), a `StringTensor`, the DEGENERATE
 `Tensor` that reports STRING over an object / text array (observation D382), or the exception.
-Conversions into the 8-bit and 4-bit float types are not modelled (`unmodelled`); nor are `None`
-and text leaves converted into numeric dtypes.  Core Lean only; all arithmetic is on `Nat` / `Int`.
+Conversions into the 8-bit and 4-bit float types of ml_dtypes (third deepening round): `encF8`,
+round to nearest even from binary64 directly (a Python int through a C long and float32), with the
+per-type treatment of overflow, infinity, NaN, signed zero and subnormals.  `None` converts to NaN
+(numpy float / complex types), `False` (bool) or raises; text converts to its truthiness for bool and
+raises `TypeError` for every ml_dtypes type; only text PARSED into the numpy int / float / complex
+types stays outside (`unmodelled`).  Core Lean only; all arithmetic is on `Nat` / `Int`.
 -/
 import IrVerif.Model.StrTensor
 namespace IrVerif.PyTensor
@@ -201,6 +205,8 @@ def leafToF64 : Leaf → Cast
     | none => .err "OverflowError"
   | .float b => .ok b
   | .complex _ _ => .err "TypeError"
+  -- `float(None)` inside numpy's setitem: NaN (the canonical quiet NaN, sign clear)
+  | .none => .ok 0x7FF8000000000000
   | _ => .unmodelled
 
 /-- the two's complement of an integer that fits the type, `OverflowError` otherwise -/
@@ -220,6 +226,7 @@ def castNpInt (bits : Nat) (signed : Bool) (l : Leaf) : Cast :=
     | .ok i => fitInt bits signed i
     | .error e => .err e
   | .complex _ _ => .err "TypeError"
+  | .none => .err "TypeError"
   | _ => .unmodelled
 
 /-- is the finite Python float an integer, and is it negative -/
@@ -248,14 +255,18 @@ def castMlInt (bits : Nat) (signed : Bool) (l : Leaf) : Cast :=
       if edgeOk bits signed i (floatExactNeg b) then fitInt bits signed i else .err "OverflowError"
     | .error e => .err e
   | .complex _ _ => .err "TypeError"
-  | _ => .unmodelled
+  -- ml_dtypes: `expected number, got NoneType / str / bytes`
+  | _ => .err "TypeError"
 
 def castBool : Leaf → Cast
   | .bool b => .ok (if b then 1 else 0)
   | .int i => .ok (if i = 0 then 0 else 1)
   | .float b => .ok (if floatTruthy b then 1 else 0)
   | .complex re im => .ok (if floatTruthy re || floatTruthy im then 1 else 0)
-  | _ => .unmodelled
+  -- `bool(None)`, `bool(text)`: the truth value of the Python object
+  | .none => .ok 0
+  | .str s => .ok (if s = "" then 0 else 1)
+  | .bytes b => .ok (if b = [] then 0 else 1)
 
 /-- binary16 / binary32 / binary64 of numpy: through `float(x)`, then one narrowing -/
 def castNpFloat (eb mb : Nat) (l : Leaf) : Cast :=
@@ -272,13 +283,135 @@ def castBf16 : Leaf → Cast
     else .err "TypeError"
   | .float b => .ok (encodeF 8 7 (decode32 (encodeF 8 23 (decode64 b))))
   | .complex _ _ => .err "TypeError"
-  | _ => .unmodelled
+  -- ml_dtypes: `expected number, got NoneType / str / bytes`
+  | _ => .err "TypeError"
+
+/-! ## the 8-bit and 4-bit float types of ml_dtypes -/
+
+/-- round `m * 2^e` (`m > 0`) to a format with `mb` fraction bits whose smallest subnormal is
+    `2^qmin`, ties to even, WITHOUT any saturation: `(exponent field) * 2^mb + fraction`, the carry
+    of the rounding running into the exponent field (and beyond the largest field value) -/
+def roundU (mb : Nat) (qmin : Int) (m : Nat) (e : Int) : Nat :=
+  let q : Int := max (e + bitLen m - 1 - mb) qmin
+  let r : Nat :=
+    if q ≤ e then m * 2 ^ (e - q).toNat
+    else
+      let s := (q - e).toNat
+      let fl := m / 2 ^ s
+      let rem := m % 2 ^ s
+      let half := 2 ^ (s - 1)
+      if rem > half ∨ (rem = half ∧ fl % 2 = 1) then fl + 1 else fl
+  (q - qmin).toNat * 2 ^ mb + r
+
+/-- the six narrow float types -/
+inductive F8 where
+  | e4m3fn | e4m3fnuz | e5m2 | e5m2fnuz | e8m0 | e2m1
+  deriving Repr, DecidableEq
+
+def sgn8 (neg : Bool) : Nat := if neg then 128 else 0
+
+/-- `T(double)` of ml_dtypes 0.6 (`float8_internal::ConvertImpl`, no saturation flag), as observed on
+    every binary16 value and on boundary binary32 / binary64 values:
+    * FLOAT8E4M3FN (bias 7, no infinity, `S.1111.111` is NaN): beyond 448 after rounding, and
+      infinity, become NaN with the sign kept;
+    * FLOAT8E5M2 (bias 15, IEEE-like): overflow becomes infinity `0x7C`, NaN `0x7E`, sign kept;
+    * FLOAT8E4M3FNUZ / FLOAT8E5M2FNUZ (bias 8 / 16; one zero, `0x80` is the only NaN): overflow,
+      infinity and NaN become `0x80`; `-0.0` and every negative value that rounds to zero become `0x00`;
+    * FLOAT8E8M0 (an unsigned power of two `2^(E-127)`, `0xFF` NaN): zero, negative values, infinity
+      and NaN become `0xFF`; the field `E = 0` is treated like the zero / subnormal field of an IEEE
+      format (everything up to `2^-127` gives `0x00`, anything above it `0x01`); a value whose
+      leading bit is `2^129` or more is NaN, but a value in `[1.5 * 2^128, 2^129)` rounds up to the
+      field 256, which WRAPS to `0x00` (observation D384);
+    * FLOAT4E2M1 (bias 1, no infinity, no NaN): overflow and infinity SATURATE to 6.0 with the sign;
+      NaN becomes `-0.0` (`0x8`), a NaN with the sign set `+0.0` (`0x0`). -/
+def encF8 (k : F8) (f : F64) : Nat :=
+  match k, f with
+  | .e4m3fn, .zero neg => sgn8 neg
+  | .e4m3fn, .fin neg m e => sgn8 neg + (if roundU 3 (-9) m e ≤ 0x7E then roundU 3 (-9) m e else 0x7F)
+  | .e4m3fn, .inf neg => sgn8 neg + 0x7F
+  | .e4m3fn, .nan neg => sgn8 neg + 0x7F
+  | .e5m2, .zero neg => sgn8 neg
+  | .e5m2, .fin neg m e => sgn8 neg + min (roundU 2 (-16) m e) 0x7C
+  | .e5m2, .inf neg => sgn8 neg + 0x7C
+  | .e5m2, .nan neg => sgn8 neg + 0x7E
+  | .e4m3fnuz, .fin neg m e =>
+    if roundU 3 (-10) m e > 0x7F then 0x80
+    else if roundU 3 (-10) m e = 0 then 0 else sgn8 neg + roundU 3 (-10) m e
+  | .e5m2fnuz, .fin neg m e =>
+    if roundU 2 (-17) m e > 0x7F then 0x80
+    else if roundU 2 (-17) m e = 0 then 0 else sgn8 neg + roundU 2 (-17) m e
+  | .e4m3fnuz, .zero _ => 0
+  | .e5m2fnuz, .zero _ => 0
+  | .e4m3fnuz, _ => 0x80
+  | .e5m2fnuz, _ => 0x80
+  | .e8m0, .fin false m e => if e + bitLen m - 1 ≥ 129 then 0xFF else roundU 0 (-126) m e % 256
+  | .e8m0, _ => 0xFF
+  | .e2m1, .zero neg => if neg then 8 else 0
+  | .e2m1, .fin neg m e => (if neg then 8 else 0) + min (roundU 1 (-1) m e) 7
+  | .e2m1, .inf neg => (if neg then 8 else 0) + 7
+  | .e2m1, .nan neg => if neg then 0 else 8
+
+/-- the fields of an IEEE-like pattern with `eb` exponent bits, `mb` fraction bits and the given
+    bias, without special values: sign, zero / subnormal `fr * 2^(1-bias-mb)` / normal -/
+def decFields (eb mb : Nat) (bias : Int) (p : Nat) : F64 :=
+  let neg := p / 2 ^ (eb + mb) % 2 = 1
+  let ex : Nat := p / 2 ^ mb % 2 ^ eb
+  let fr : Nat := p % 2 ^ mb
+  if ex = 0 then (if fr = 0 then .zero neg else .fin neg fr (1 - bias - mb))
+  else .fin neg (2 ^ mb + fr) ((ex : Int) - bias - mb)
+
+/-- the VALUE of a bit pattern of the narrow float types, as the ONNX operator documentation (and
+    the OCP 8-bit / microscaling formats) define it: the specification `encF8` is measured against
+    (`C04_pytensor_f8_roundtrip`), compared with ml_dtypes' own `float(pattern)` on every run -/
+def decF8 (k : F8) (p : Nat) : F64 :=
+  match k with
+  | .e4m3fn => if p % 128 = 0x7F then .nan (p / 128 % 2 = 1) else decFields 4 3 7 p
+  | .e5m2 =>
+    if p % 128 = 0x7C then .inf (p / 128 % 2 = 1)
+    else if p % 128 > 0x7C then .nan (p / 128 % 2 = 1) else decFields 5 2 15 p
+  | .e4m3fnuz => if p = 0x80 then .nan true else decFields 4 3 8 p
+  | .e5m2fnuz => if p = 0x80 then .nan true else decFields 5 2 16 p
+  | .e8m0 => if p = 0xFF then .nan false else .fin false 1 ((p : Int) - 127)
+  | .e2m1 => decFields 2 1 1 p
+
+/-- the pattern a conversion produces for the value of pattern `p`: `p` itself, except that the
+    three NaNs of each sign of FLOAT8E5M2 collapse into the quiet one -/
+def canonF8 (k : F8) (p : Nat) : Nat :=
+  if k = .e5m2 ∧ p % 128 > 0x7C then p / 128 * 128 + 0x7E else p
+
+def F8.bits : F8 → Nat
+  | .e2m1 => 4
+  | _ => 8
+
+def F8.dtype : F8 → DType
+  | .e4m3fn => .float8e4m3fn | .e4m3fnuz => .float8e4m3fnuz | .e5m2 => .float8e5m2
+  | .e5m2fnuz => .float8e5m2fnuz | .e8m0 => .float8e8m0 | .e2m1 => .float4e2m1
+
+/-- the scalars ml_dtypes accepts for its float types: bool, an int that fits a C long, float -/
+def Leaf.isReal64 : Leaf → Bool
+  | .bool _ => true
+  | .int i => decide (-(2 ^ 63 : Int) ≤ i ∧ i < 2 ^ 63)
+  | .float _ => true
+  | _ => false
+
+/-- ml_dtypes `CastToCustomFloat`: a Python float converts directly (one rounding); a Python int
+    (and a bool, which is one) goes through a C long (`TypeError: expected number` beyond int64) and
+    float32 (two roundings); everything else is `TypeError` -/
+def castF8 (k : F8) : Leaf → Cast
+  | .bool b => .ok (encF8 k (if b then .fin false 1 0 else .zero false))
+  | .int i =>
+    if -(2 ^ 63 : Int) ≤ i ∧ i < 2 ^ 63 then .ok (encF8 k (decode32 (encodeF 8 23 (ofInt i))))
+    else .err "TypeError"
+  | .float b => .ok (encF8 k (decode64 b))
+  | _ => .err "TypeError"
 
 /-- complex64 / complex128: the parts converted like floats; a real scalar gets `+0.0` -/
 def castComplex (eb mb half : Nat) (l : Leaf) : Cast :=
   let part (b : Nat) : Nat := if eb = 11 then b else encodeF eb mb (decode64 b)
   match l with
   | .complex re im => .ok (part re + part im * 2 ^ half)
+  -- `None` becomes NaN in BOTH parts
+  | .none => .ok (part 0x7FF8000000000000 + part 0x7FF8000000000000 * 2 ^ half)
   | _ => match leafToF64 l with
     | .ok b => .ok (part b)
     | c => c
@@ -299,6 +432,12 @@ def castLeaf (d : DType) (l : Leaf) : Cast :=
   | .bfloat16 => castBf16 l
   | .complex64 => castComplex 8 23 32 l
   | .complex128 => castComplex 11 52 64 l
+  | .float8e4m3fn => castF8 .e4m3fn l
+  | .float8e4m3fnuz => castF8 .e4m3fnuz l
+  | .float8e5m2 => castF8 .e5m2 l
+  | .float8e5m2fnuz => castF8 .e5m2fnuz l
+  | .float8e8m0 => castF8 .e8m0 l
+  | .float4e2m1 => castF8 .e2m1 l
   | _ => .unmodelled
 
 /-- convert the scalars in order; the first one that fails decides -/
@@ -489,5 +628,37 @@ def hypText (v : PyVal) (dt : Option DType) : Bool :=
 
 def hypRagged (v : PyVal) (dt : Option DType) : Bool :=
   (npShape v).isNone && dt != some .string && dt != some .undefined
+
+/-! ## `_core.Tensor.__init__` on a numpy array with an explicit dtype: `_check_numpy_representation_type`
+
+(`_core.py` 275-344).  The array's dtype is named by `np.dtype.name` (`"str"` / `"bytes"` stand for
+any `<U..` / `|S..` dtype, every other name outside the table for a dtype ONNX does not know). -/
+
+/-- `_NON_NUMPY_NATIVE_TYPES` (`_core.py` 87-101) -/
+def nonNative (d : DType) : Bool :=
+  d ∈ [DType.bfloat16, .float8e4m3fn, .float8e4m3fnuz, .float8e5m2, .float8e5m2fnuz, .float8e8m0,
+       .int4, .uint4, .float4e2m1, .int2, .uint2]
+
+/-- `DataType.from_numpy(array.dtype)` (`_enums.py` 74-106) by dtype name; `none` is the TypeError -/
+def fromNumpyName (arr : String) : Option DType :=
+  match DType.ofNpName arr with
+  | some d => some d
+  | none => if arr = "str" ∨ arr = "bytes" then some .string else none
+
+/-- does `Tensor(array, dtype=d)` accept the array (`true`) or raise `TypeError` (`false`):
+    the raw-bits forms (uint16 for BFLOAT16, uint8 for every 8-bit float -- and ANY ml_dtypes 8-bit
+    float for any other --, int8 / uint8 for INT4 / INT2, uint8 for UINT4 / UINT2 / FLOAT4E2M1) or the
+    type's own ml_dtypes dtype; for the numpy-native types `from_numpy(array.dtype)` must be `d` -/
+def ctorAccepts (arr : String) (d : DType) : Bool :=
+  if nonNative d then
+    !(d.bitwidth == some 16 && !(arr ∈ ["uint16", "bfloat16"])) &&
+    !(d.bitwidth == some 8 &&
+        !(arr ∈ ["uint8", "float8_e4m3fnuz", "float8_e4m3fn", "float8_e5m2fnuz", "float8_e5m2", "float8_e8m0fnu"])) &&
+    !(d == .int4 && !(arr ∈ ["int8", "uint8", "int4"])) &&
+    !(d == .uint4 && !(arr ∈ ["uint8", "uint4"])) &&
+    !(d == .float4e2m1 && !(arr ∈ ["uint8", "float4_e2m1fn"])) &&
+    !(d == .int2 && !(arr ∈ ["int8", "uint8", "int2"])) &&
+    !(d == .uint2 && !(arr ∈ ["uint8", "uint2"]))
+  else fromNumpyName arr == some d
 
 end IrVerif.PyTensor
